@@ -23,7 +23,7 @@ Payloads(t) ==
       [] t = "float" -> {"1.5", "0", "-2", "1e-7", "3 (integral)"}
       [] t = "fint" -> {"3", "0", "1"}
       [] t = "fbool" -> {"true", "false"}
-      [] t = "fboolorfloat" -> {"true", "false", "2.5"}
+      [] t = "fboolorfloat" -> {"true", "false", "2.5", "1 (one)"}
       [] t = "fintlist" -> {"[1,2,3]", "[]", "[7]", "[0,2]"}
       [] t = "f1dfloatduple" -> {"(1.5,2)"}
       [] t = "f2dfloatarray" -> {"[[1,2],[3,4.5]]"}
@@ -43,6 +43,8 @@ Reprs(t, p) ==
                          "lower bool string", "numeric string"}
       [] t = "fboolorfloat" ->
             IF p = "2.5" THEN {"native", "numeric string"}
+            \* the number one is a float, not the truth value it equals
+            ELSE IF p = "1 (one)" THEN {"native", "int", "numeric string", "numpy scalar"}
             ELSE {"native", "bool string"}
       [] t = "fintlist" -> {"list", "tuple", "string"}
       [] t = "f1dfloatduple" -> {"tuple", "list", "numpy array"}
